@@ -1,3 +1,280 @@
+// C10 — the kafka input never acknowledges (marks for commit) a record that
+// is not finished. The real plugin (Start, NewClient, consumer group, poll
+// loop, partition consumers, Commit, Stop) runs against a loopback broker;
+// the monitor sits at the plugin boundary (In, Commit), in a script action,
+// in a Batcher-based output and in the broker, reads
+// kgo.Client.MarkedOffsets() after every Commit and judges every marked /
+// committed offset with the reference model in model.go.
 package main
 
-func main() {}
+import (
+	"encoding/json"
+	"fmt"
+	"os"
+	"runtime"
+	"sort"
+	"strings"
+	"sync"
+	"time"
+
+	"verifharness/core"
+)
+
+func main() {
+	core.RegisterChild("case", func(raw json.RawMessage, io *core.ChildIO) (any, error) {
+		var cs Case
+		if err := json.Unmarshal(raw, &cs); err != nil {
+			return nil, err
+		}
+		return runCase(&cs, io), nil
+	})
+	core.Main("C10", "exploration", run)
+}
+
+func run(c *core.Ctx) {
+	c.SetRule("cases run the real kafka input plugin in a real pipeline (2*GOMAXPROCS processors, spread mode as the plugin asks) against a loopback Kafka broker, one child process per case under -race. " +
+		"grid: topic lists of 1..4 topics x every topic index x partitions {0,1,255,65535} x offsets {0,1,2^16-1,2^16,2^16+1,2^31-1,2^31,2^31+1,2^47-1} x epochs {0,1,65535}, one record in flight, through the real partition consumers (complete enumeration); " +
+		"inject: seeded concurrent hand-made fetches with extreme partitions/offsets/epochs; sched: seeded logs (1-4 topics x 1-4 partitions, offset gaps, epoch bumps, empty/unparsable/oversize values, resumed-from-commit partitions) served by the broker through the real poll loop, script action delays/discards, batch size 1-8 x workers 1-4 x send delays, 2-16 processors; " +
+		"stop-early: the input plugin is stopped (Plugin.Stop commits the marked offsets) while slow events are in flight; directed: an earlier record is held in the action (d-spread) or in the output's send (d-output) until a later record of the partition has been committed / acknowledged. " +
+		"Every marked head read after every Commit/In and every OffsetCommit received by the broker is judged (P1 packing, P2 frontier). distinct = configuration class x observed phenomena (completion inversions, refused records, resumed partitions, classes of frontier passes); non-trivial = at least one mark judged")
+	c.Assume("plan A of DESIGN §C10: Plugin.Start/NewClient/Ping/consumer group/PollRecords/auto-commit/Stop run unmodified against a loopback broker written from the Kafka protocol docs with franz-go's kmsg codec (single member, no rebalance, Fetch v6, no transactions); the franz-go client itself is trusted (forward-only marks ordered by (epoch, offset), auto-commit sends the marked heads)")
+	c.Assume("grid/inject cases feed hand-made kgo fetches to a second splitConsume built by the accessor plugin/input/kafka/verif_c10.go from the plugin's own fields (real Assigned + pconsumer.consume); the marks still go to the plugin's real client and from there to the broker")
+	c.Assume("acknowledged = the output's send function returned for the batch; deliberately dropped = Pipeline.In returned 0 (empty value, unparsable JSON, over max_event_size without cut-off) or the script action returned ActionDiscard (recorded before returning)")
+	c.Assume("Commit calls are serialized by the monitor while it reads MarkedOffsets (attribution of each head change to one Commit); this does not change the order in which records finish")
+
+	var cases []Case
+	nSched := c.N(44, 640)
+	nInject := c.N(6, 64)
+	nDirected := c.N(3, 12)
+	orders := c.N(1, 2)
+	for k := 1; k <= 4; k++ {
+		for o := 0; o < orders; o++ {
+			cases = append(cases, gridCase(k, o))
+		}
+	}
+	for i := 0; i < nDirected; i++ {
+		cases = append(cases, directedCase("d-spread", i, c.SubSeed("d-spread", i)))
+		cases = append(cases, directedCase("d-output", i, c.SubSeed("d-output", i)))
+	}
+	for i := 0; i < nInject; i++ {
+		cases = append(cases, injectCase(i, c.SubSeed("inject", i)))
+	}
+	for i := 0; i < nSched; i++ {
+		cases = append(cases, schedCase(i, c.SubSeed("sched", i)))
+	}
+	for i := 0; i < c.N(5, 48); i++ {
+		cases = append(cases, stopEarlyCase(i, c.SubSeed("stop-early", i)))
+	}
+	if p := c.ReplayArg(); p != "" {
+		// re-run only the case named in the witness, with a trace
+		if name := replayCaseName(p); name != "" {
+			var only []Case
+			for _, cs := range cases {
+				if cs.Name == name {
+					cs.Trace = true
+					only = append(only, cs)
+				}
+			}
+			if len(only) > 0 {
+				cases = only
+			}
+		}
+	}
+
+	if only := os.Getenv("C10_ONLY"); only != "" { // debugging aid: run the named cases only and print their results
+		var sel []Case
+		for _, cs := range cases {
+			if strings.Contains(cs.Name, only) {
+				cs.Trace = os.Getenv("C10_TRACE") != ""
+				sel = append(sel, cs)
+			}
+		}
+		for i := range sel {
+			res := core.RunChild("case", &sel[i], core.ChildOpt{Timeout: 6 * time.Minute, GOMAXPROCS: sel[i].Procs, Env: []string{"LOG_LEVEL=fatal"}})
+			if d := os.Getenv("C10_DUMP"); d != "" {
+				_ = os.WriteFile(d+"/"+sel[i].Name+".json", res.Out, 0o644)
+			}
+			fmt.Printf("== %s completed=%v timedout=%v\n%s\nstderr tail:\n%s\n", sel[i].Name, res.Completed, res.TimedOut, core.Trunc(string(res.Out), 6000), core.Trunc(res.Stderr, 3000))
+		}
+		c.Fatal("C10_ONLY debugging run")
+		return
+	}
+	// heavier cases first; total thread demand is kept near the core count
+	sort.SliceStable(cases, func(i, j int) bool { return cases[i].Procs > cases[j].Procs })
+	budget := runtime.NumCPU() + 4
+	if budget < 6 {
+		budget = 6
+	}
+	var mu sync.Mutex
+	cond := sync.NewCond(&mu)
+	used := 0
+	var wg sync.WaitGroup
+	kindSeen := map[string]map[string]int64{}
+	for i := range cases {
+		cs := cases[i]
+		cost := cs.Procs + 1
+		mu.Lock()
+		for used > 0 && used+cost > budget {
+			cond.Wait()
+		}
+		used += cost
+		mu.Unlock()
+		wg.Add(1)
+		go func() {
+			defer wg.Done()
+			defer func() { mu.Lock(); used -= cost; cond.Broadcast(); mu.Unlock() }()
+			r := runOne(c, &cs)
+			if r == nil {
+				return
+			}
+			mu.Lock()
+			if kindSeen[cs.Kind] == nil {
+				kindSeen[cs.Kind] = map[string]int64{}
+			}
+			for k, v := range r.Stats {
+				kindSeen[cs.Kind][k] += v
+			}
+			for _, f := range r.Flags {
+				kindSeen[cs.Kind]["flag:"+f]++
+			}
+			mu.Unlock()
+		}()
+	}
+	wg.Wait()
+	if c.ReplayArg() != "" {
+		return
+	}
+
+	// a run that did not observe what it is about decides nothing
+	need := func(kind, stat, why string) {
+		if kindSeen[kind][stat] == 0 {
+			c.Fatal("%s cases never observed %s (%s)", kind, stat, why)
+		}
+	}
+	for _, k := range []string{"grid", "inject", "sched"} {
+		need(k, "marks_exact", "a Commit after which the partition's marked offset is that record's offset+1")
+		need(k, "p1_ok_mark", "a marked head that is offset+1/epoch of a handed record")
+		need(k, "p1_ok_broker", "an OffsetCommit received by the broker that is offset+1/epoch of a handed record")
+	}
+	need("grid", "final_broker_commit_equals_head", "the final committed offsets at the broker equal to the last marked heads")
+	need("sched", "final_broker_commit_equals_head", "the final committed offsets at the broker equal to the last marked heads")
+	need("sched", "completion_inversions", "a record finishing before an earlier record of its partition")
+	need("sched", "in_refused_bad", "an unparsable value refused by Pipeline.In")
+	need("sched", "in_refused_big", "an oversize value refused by Pipeline.In")
+	need("sched", "handed_empty_values", "an empty / null value")
+	need("sched", "partitions_resumed_from_commit", "a partition resumed from a previous session's commit")
+	need("sched", "p2_ok_mark", "a marked head with nothing unfinished below it")
+	need("stop-early", "in_flight_at_input_stop", "events in flight when the input plugin was stopped")
+	need("stop-early", "p1_ok_broker", "offsets committed by Plugin.Stop")
+	if kindSeen["d-spread"]["flag:arrived:UseSpread"] > 0 {
+		need("d-spread", "flag:directed:later-record-done-while-earlier-held", "the directed schedule: a later record committed while an earlier one is held in the action")
+	} else {
+		// without spread mode a partition is one stream: nothing can overtake the held record
+		c.Count("d-spread_unreachable_plugin_did_not_ask_for_spread", 1)
+	}
+	if kindSeen["d-output"]["flag:arrived:UseSpread"] > 0 {
+		need("d-output", "flag:directed:later-record-done-while-earlier-held", "the directed schedule: a later record acknowledged while an earlier one is held in the output's send")
+	}
+	if g := kindSeen["grid"]; g["marks_exact"] != g["commit_calls"] {
+		c.Count("grid_commits_without_exact_mark", g["commit_calls"]-g["marks_exact"])
+	}
+}
+
+func replayCaseName(path string) string {
+	b, err := readFile(path)
+	if err != nil {
+		return ""
+	}
+	var w struct {
+		Witness struct {
+			Case string `json:"case"`
+		} `json:"witness"`
+	}
+	_ = json.Unmarshal(b, &w)
+	return w.Witness.Case
+}
+
+func runOne(c *core.Ctx, cs *Case) *Result {
+	opt := core.ChildOpt{Timeout: 6 * time.Minute, GOMAXPROCS: cs.Procs, Env: []string{"LOG_LEVEL=fatal"}}
+	res := core.RunChild("case", cs, opt)
+	c.Eval(1)
+	c.Count("cases_"+cs.Kind, 1)
+	for _, rr := range res.RaceReports {
+		c.Count("race_reports", 1)
+		c.Extra("race:"+core.RaceKey(rr), core.Trunc(rr, 1500))
+	}
+	if res.TimedOut {
+		c.Inconclusive("watchdog:" + cs.Kind)
+		return nil
+	}
+	if res.Crashed() {
+		// confirm by running the same case alone once more
+		again := core.RunChild("case", cs, opt)
+		msg, fn := core.PanicFunc(res.Stderr)
+		if again.Crashed() {
+			msg2, fn2 := core.PanicFunc(again.Stderr)
+			if fn2 == fn || msg2 == msg {
+				c.Violation(fmt.Sprintf("C10:crash:%s@%s", core.NormalizeMsg(msg), fn),
+					"the process running the kafka input died", map[string]any{"case": cs.Name, "spec": cs, "stderr": core.Trunc(res.Stderr, 3000)})
+				return nil
+			}
+		}
+		c.Inconclusive("unconfirmed-crash:" + cs.Kind)
+		c.Extra("unconfirmed_crash_"+cs.Name, core.Trunc(res.Stderr, 2000))
+		return nil
+	}
+	var r Result
+	if err := json.Unmarshal(res.Out, &r); err != nil {
+		c.Fatal("cannot decode the result of %s: %v", cs.Name, err)
+		return nil
+	}
+	if r.HarnessError != "" {
+		c.Fatal("case %s: %s", cs.Name, r.HarnessError)
+		return nil
+	}
+	for _, f := range r.Flags {
+		if strings.HasPrefix(f, "harness:") {
+			c.Fatal("case %s: monitor inconsistency %q (not a C10 verdict; the workload did not behave as the generator assumes)", cs.Name, f)
+		}
+	}
+	for _, v := range r.Viols {
+		w := map[string]any{"case": cs.Name, "observation": v.Witness, "spec": cs, "times_in_case": r.ViolCount[v.Sig]}
+		if len(r.Trace) > 0 {
+			w["trace"] = r.Trace
+		}
+		c.Violation(v.Sig, v.What, w)
+	}
+	if r.Inconclusive != "" {
+		c.Inconclusive(cs.Kind + ": " + r.Inconclusive)
+		c.Extra("inconclusive_"+cs.Name, map[string]any{"why": r.Inconclusive, "stages": r.Dump, "stats": r.Stats, "stderr": core.Trunc(res.Stderr, 6000)})
+	}
+	if len(r.Notes) > 0 {
+		c.Extra("notes_"+cs.Name, r.Notes)
+	}
+	for k, v := range r.Stats {
+		switch k {
+		case "processors":
+			c.Count(fmt.Sprintf("cases_with_%02d_processors", v), 1)
+		default:
+			c.Count(k, v)
+		}
+	}
+	for _, f := range r.Flags {
+		c.Count("cases_flag_"+f, 1)
+	}
+	if r.Stats["heads_checked_mark"] > 0 {
+		c.Nontrivial(fingerprint(cs, &r))
+	}
+	if r.Sample != nil && (cs.Kind != "sched" || strings.HasSuffix(cs.Name, "-0") || strings.HasSuffix(cs.Name, "-1")) {
+		c.Sample(r.Sample)
+	}
+	if c.ReplayArg() != "" {
+		fmt.Printf("replayed %s: violations=%v flags=%v\n", cs.Name, r.ViolCount, r.Flags)
+		for _, l := range r.Trace {
+			fmt.Println("  ", l)
+		}
+	}
+	return &r
+}
+
+func readFile(p string) ([]byte, error) { return os.ReadFile(p) }
